@@ -72,8 +72,12 @@ type c01Prog struct {
 // ids 0..OutboundUserDefinedMax (0xFB).  Rules use a boundary-biased subset of them.
 var c01Outs = func() []string {
 	o := []string{"direct", "block"}
+	// group names as users write them: among them names that begin with letters of "must_" (the
+	// `must_` prefix of an outbound must be removed as a prefix, not as a set of characters), names
+	// that contain "must", and names that look like the reserved words
+	stems := []string{"g", "us_", "steam", "m", "t", "_", "su", "mustang", "must", "tt_s", "direct_", "block"}
 	for i := 2; i <= int(consts.OutboundUserDefinedMax); i++ {
-		o = append(o, fmt.Sprintf("g%d", i))
+		o = append(o, fmt.Sprintf("%s%d", stems[i%len(stems)], i))
 	}
 	return o
 }()
